@@ -179,8 +179,8 @@ theorem C03_lines_legal_any_schedule {R : State → Prop} (hR : Region R) (ctx :
 
 /-! ## 2. C06 for every schedule -/
 
-/-- **C06_claims_true_any_schedule.**  A `Domain` `D` of positions (closed under legal moves, generator and evaluation
-well-behaved, no harmful collision), the root in it, a shared table satisfying `C06.TTInv` (shape + every entry sound),
+/-- **C06_claims_true_any_schedule.**  A `Domain` `D` of positions (closed under legal moves, generator
+well-behaved, no harmful collision; since the repair of F10 nothing is asked of the evaluation), the root in it, a shared table satisfying `C06.TTInv` (shape + every entry sound),
 ANY number of workers (any depths, seeds, poll offsets; best move absent or legal) and ANY interleaving `H`.  Then
 1. every insert of every worker is a `SoundInsert` (key of a position of `D`, entry sound for it);
 2. the shared table satisfies `C06.TTInv` — in particular `SoundTT` — after every prefix of `H`;
